@@ -90,7 +90,7 @@ SHIM = [None]
 T_BASE, T_RUN = 1700000000, 1700100000     # frozen clock of the base syncs / of the compared runs
 
 
-def run_snap(binary, root, cache, cmd, log, trace=None, yseed=None, sigint_after=None, outside=False, now=T_RUN):
+def run_snap(binary, root, cache, cmd, log, trace=None, yseed=None, sigint_after=None, outside=False, now=T_RUN, slow=None):
     """returns (rc, timed_out, stdout+stderr).  The clock is frozen by the LD_PRELOAD shim (time() only;
     nothing is traced or injected) so that the info times recorded in the content files are comparable."""
     env = dict(os.environ)
@@ -103,6 +103,10 @@ def run_snap(binary, root, cache, cmd, log, trace=None, yseed=None, sigint_after
         env["LD_PRELOAD"] = SHIM[0]
         env["VSHIM_TIME"] = str(now)
         env["VSHIM_STATFS"] = "1"
+    if slow and SHIM[0]:
+        # the reads of one data disk are made slow (2 ms each): its reader finishes last in every stripe, whatever its index
+        env["VSHIM_ROOT"] = root
+        env["VSHIM_RULES"] = "pread,/d%d/,0,delay,2" % slow
     if trace:
         env["SNAPRAID_VERIF_IOTRACE"] = trace
     if yseed is not None:
@@ -453,19 +457,23 @@ def _run(tier):
             for c in CACHES:
                 for k in range(nseeds):
                     jobs.append((sc, c, rnd.randrange(1, 2 ** 31), (k % 2 == 1) and c > 1))
+            # skewed readers: each data disk in turn is the slow one (threaded modes only)
+            for dsk in range(1, sc.nd + 1):
+                jobs.append((sc, [3, 8, 128][dsk % 3], rnd.randrange(1, 2 ** 31), False, dsk))
         counter = [0]
 
         def do_run(job, sigint=None, tagx=""):
-            sc, cache, yseed, outside = job
+            sc, cache, yseed, outside = job[:4]
+            slow = job[4] if len(job) > 4 else None
             counter[0] += 1
-            rid = "%s-c%d-y%d%s%s" % (sc.name, cache, yseed, "-out" if outside else "", tagx)
+            rid = "%s-c%d-y%d%s%s%s" % (sc.name, cache, yseed, "-out" if outside else "", "-slow%d" % slow if slow else "", tagx)
             root = os.path.join(scratch, "w-" + rid)
             copy_prestate(pres[sc.name], root)
             tr = os.path.join(tdir, rid + ".ndjson")
             log = os.path.join(root, "log")
             cmd = [a.replace("{root}", root) for a in sc.cmd]
             rc, to, out = run_snap(binary, root, cache, cmd, log, trace=tr, yseed=yseed, sigint_after=sigint,
-                                   outside=outside)
+                                   outside=outside, slow=slow)
             r = {"id": rid, "scenario": sc.name, "cache": cache, "yseed": yseed, "outside": outside, "rc": rc,
                  "timeout": to, "trace": tr, "out": out[-1500:],
                  "replay_cmd": "SNAPRAID_VERIF_YIELD=%d SNAPRAID_VERIF_IOTRACE=<file> " % yseed +
